@@ -1,4 +1,5 @@
 """Shared plumbing for /verif/check: build, TLC driver, evidence, known findings, violation reporting."""
+import sys as _sys; _sys.setrecursionlimit(50000)
 import json, os, re, subprocess, sys, time, shutil, hashlib, random
 
 VERIF = os.path.dirname(os.path.dirname(os.path.abspath(__file__)))
